@@ -28,6 +28,11 @@ def networks(name):
         for inp in U.micro_inputs(4, 3, 2):
             for o in U.all_outputs(inp, max_len=2):
                 out.append((name, inp, o, None))
+    elif name == "U422":
+        # 4 tensors over 2 symbols: degree-4 hyper / batch indices
+        for inp in U.micro_inputs(4, 2, 2):
+            for o in U.all_outputs(inp):
+                out.append((name, inp, o, None))
     elif name == "F":
         for nm, inp, o, sd in U.feature_family():
             out.append(("F:" + nm, inp, o, sd))
